@@ -114,8 +114,15 @@ def run_codec(ctx):
     ctx.extra["codec_cases"] = len(cases)
 
 
+def idless_pending(ev):
+    """site of the listed finding IDLESS-ENTRY-STAYS-PENDING: the live pending set holds an entry that has no id on either side"""
+    st = ev.get("st") or {}
+    ents = {e["id"]: e for e in st.get("ents", [])}
+    return any(i in ents and ents[i]["s"][0][0] == 0 and ents[i]["s"][1][0] == 0 for i in st.get("pend", []))
+
+
 def xsig(case, trace, line):
-    return {"restart": any(t[0] == "R" for t in case["tokens"])}
+    return {"restart": any(t[0] == "R" for t in case["tokens"]), "idless_pending": idless_pending(trace[line - 1])}
 
 
 def run(ctx):
@@ -174,7 +181,7 @@ def replay(ctx, rep):
     elif "state_case" in case:
         run_state(ctx, [case["state_case"]], "replay")
     else:
-        sc.replay_case(ctx, rep, CLAUSES)
+        sc.replay_case(ctx, rep, CLAUSES, extra_sig=xsig)
 
 
 if __name__ == "__main__":
